@@ -117,6 +117,7 @@ fn run_spec(spec: &Spec) -> common::Report {
             spec.usize("Fh", 0),
             spec.opt_usize("first"),
         ),
+        "wlong" => writer::long_history(spec.usize("cap", 512), spec.end(), spec.usize("n", 100_000), spec.usize("fail", 0)),
         "holder" => sc_holder::run(spec),
         "holderseq" => sc_holder::run_seq(spec),
         "queue" => sc_queue::run(spec),
